@@ -1,6 +1,6 @@
 (* C07 - transmission is stop-and-wait: one unacknowledged data frame at a time, in order. *)
 From Coq Require Import NArith List Bool.
-From ZB Require Import Link.TxSched Link.TxSchedProofs.
+From ZB Require Import Link.TxSched Link.TxSchedProofs Link.TxSchedSeq gen.GenConsts.
 Import ListNotations.
 Open Scope N_scope.
 
@@ -33,3 +33,30 @@ Example C07_instance :
   rev (t_log (trun_events [TSendE 1; TSendE 2; TAckE 3; TAckE 0; TTickE 1000; TCancelE 2])) =
   [TCall 1; TW 1 0; TCall 2; TEnd 1 0; TW 2 1; TEnd 2 1].
 Proof. vm_compute. reflexivity. Qed.
+
+(* ---- what "acknowledged" and "expired" mean in the scheduler (Link/TxSchedSeq.v): in every reachable state the wait in
+   progress is ended by an ACK carrying the number its frame was stamped with ... *)
+Theorem C07_matching_ack_ends_the_wait : forall evs tag d,
+  t_holder (trun_events evs) = Some (tag, d) ->
+  exists new, t_log (tstep (trun_events evs) (TAckE (t_seq (trun_events evs)))) = new ++ TEnd tag 0 :: t_log (trun_events evs).
+Proof. exact matching_ack_ends_the_wait. Qed.
+Print Assumptions C07_matching_ack_ends_the_wait.
+
+(* ... a frame written on a free link is waited for until exactly ACK_TIMEOUT (the tree's constant) later ... *)
+Theorem C07_wait_is_ack_timeout : forall s tag tg d,
+  t_holder s = None -> t_queue s = [] -> t_open s = true ->
+  t_holder (tstep s (TSendE tag)) = Some (tg, d) -> tg = tag /\ d = t_now s + ack_timeout_ms.
+Proof. exact wait_is_ack_timeout. Qed.
+Print Assumptions C07_wait_is_ack_timeout.
+
+(* ... and the wait expires when the clock reaches that deadline, not before *)
+Theorem C07_no_expiry_before_deadline : forall s dt tag d,
+  t_holder s = Some (tag, d) -> t_now s + dt < d ->
+  t_holder (tstep s (TTickE dt)) = Some (tag, d) /\ t_log (tstep s (TTickE dt)) = t_log s.
+Proof. exact no_expiry_before_deadline. Qed.
+Print Assumptions C07_no_expiry_before_deadline.
+Theorem C07_expiry_at_deadline : forall s dt tag d,
+  t_holder s = Some (tag, d) -> d <= t_now s + dt ->
+  exists new, t_log (tstep s (TTickE dt)) = new ++ TEnd tag 1 :: t_log s.
+Proof. exact expiry_at_deadline. Qed.
+Print Assumptions C07_expiry_at_deadline.
